@@ -1,5 +1,6 @@
 import FrappyProofs.Lemmas.Dispatch
 import FrappyModel.Generated.C04
+import FrappyProofs.Props.C01
 /-
 C04 — property theorems (nothing but property theorems and their non-vacuity examples).
 All of them hold for every well-formed node, every datatype oracle, every driver / hook oracle,
@@ -219,6 +220,120 @@ theorem fitting_invertedPair (pre : Predef) (env : Env V) (n : Node J V) (hwf : 
   rw [lookupParam_of_exported pre n hwf m a mod p hex]; simp only
   unfold admitChange
   simp [hro, hc, hacc, hpair, hinv, refuse, mkErr]
+
+/-! ### "exactly the validated value", for the datatypes of the C01 model -/
+
+section exact
+open Frappy.Datatypes Frappy.Lemmas.C01
+variable {F : Type} [FloatOps F] [LawfulFloatOps F]
+
+/-- **change_exactly_validated.**  When the datatype of the addressed parameter is one the datatype model covers
+(`IsC01`: any tree of the ten SECoP kinds, well-formed, scaled grids exactly representable) and the cache holds a value of
+the right shape, the value the driver's write method is called with is EXACTLY `acceptWire dt j (some current)`: the
+payload imported, validated and — for a partial struct — merged into the current value.  The second `validate` of the
+write wrapper changes nothing (C01 `revalidate_unchanged`): the assumption "validate is idempotent" of the general
+theorems is discharged here. -/
+theorem change_exactly_validated (pre : Predef) (env : Env (PVal F)) (n : Node (JVal F) (PVal F)) (hwf : Node.WF pre n)
+    (spec : Spec) (j : JVal F) (m attr : String) (w : PVal F)
+    (h : (handleChange pre env n spec j).calls = [DriverCall.write m attr w]) :
+    ∃ mod p, (∃ m' a, target "target" spec = some (m', a) ∧ ExportedParam pre n m' a mod p) ∧ mod.name = m ∧ p.attr = attr ∧
+      ∀ (dt : DType F) (cls : Frappy.Err → Node.Err), IsC01 p.dt dt cls → dt.WF → GridExact dt →
+        Shaped dt p.entry.value → acceptWire dt j (some p.entry.value) = .ok w := by
+  obtain ⟨mod, p, v, hacc, _, hname, hattr⟩ := (change_calls_iff pre env n hwf spec j m attr w).1 h
+  refine ⟨mod, p, hacc.addressed, hname, hattr, ?_⟩
+  intro dt cls hc hdwf hgrid hshape
+  have hpay := hacc.payload
+  rw [hc.accept] at hpay
+  unfold c01Accept at hpay
+  cases haw : acceptWire dt j (some p.entry.value) with
+  | error e => rw [haw] at hpay; cases hpay
+  | ok v' =>
+    rw [haw] at hpay
+    injection hpay with hpay; subst hpay
+    -- the wrapper's second validate returns the value unchanged
+    have hval : ∃ v0, validate dt v0 (some p.entry.value) = .ok v' := by
+      unfold acceptWire at haw
+      split at haw
+      · cases haw
+      · rename_i v0 _; exact ⟨v0, haw⟩
+    obtain ⟨v0, hv0⟩ := hval
+    have hidem := (Frappy.Props.C01.revalidate_unchanged dt hdwf hgrid v0 (some p.entry.value)
+      (fun q hq => by injection hq with hq; rw [← hq]; exact hshape) v' hv0).1
+    have hrev := hacc.revalidated
+    rw [hc.revalidate] at hrev
+    unfold c01Reval at hrev
+    rw [hidem] at hrev
+    injection hrev with hrev
+    rw [hrev]
+
+end exact
+
+namespace ExactExample
+open Frappy.Props.C01 Frappy.Datatypes
+
+def cls : Frappy.Err → Node.Err
+  | .range => ⟨.rangeError, ""⟩
+  | .wrongType => ⟨.wrongType, ""⟩
+  | .other s => ⟨.other s, ""⟩
+
+/-- the datatype object of the parameter IS the datatype model for C01's example tree (struct of an array of scaled
+values, a double with tolerance, an enum; member `b` optional) -/
+def ops : DtOps (JVal Rat) (PVal Rat) where
+  accept := c01Accept exTree cls
+  revalidate := c01Reval exTree cls
+  convert := fun r => match r with | some v => .ok v | none => .error ⟨.wrongType, "None"⟩
+  exportV := fun _ => .null
+  datainfo := .null
+
+def par : Param (JVal Rat) (PVal Rat) :=
+  { attr := "par", exp := .auto, limitHead := none, isLimitsPair := false, readonly := false, constant := none, dt := ops,
+    entry := ⟨exPrev, none⟩, checks := [], hasRead := false, hasWrite := true, props := [] }
+def m : Module (JVal Rat) (PVal Rat) := { name := "m", exported := true, accs := [.param par], props := [] }
+def node : Node (JVal Rat) (PVal Rat) := [m]
+def env : Env (PVal Rat) where
+  drv := fun _ => .none
+  chk := fun _ _ _ _ => .pass
+  le := fun _ _ => true
+  lt := fun _ _ => false
+  split := fun v => (v, v)
+
+theorem wf : Node.WF [] node := by
+  refine ⟨by unfold namesNodup; decide +kernel, ?_, ?_, ?_, ?_⟩
+  · intro x hx; simp only [node, List.mem_singleton] at hx; subst hx; unfold Module.attrsNodup; decide +kernel
+  · intro x hx; simp only [node, List.mem_singleton] at hx; subst hx; unfold Module.wiresNodup; decide +kernel
+  · intro x hx; simp only [node, List.mem_singleton] at hx; subst hx
+    intro a ha k hk
+    simp only [m, List.mem_cons, List.not_mem_nil, or_false] at ha
+    subst ha; revert hk; revert k; decide +kernel
+  · intro x hx; simp only [node, List.mem_singleton] at hx; subst hx
+    intro a ha p hp hc
+    simp only [m, List.mem_cons, List.not_mem_nil, or_false] at ha
+    subst ha; injection hp with hp; subst hp; simp [par] at hc
+
+theorem isC01 : IsC01 par.dt exTree cls := ⟨fun _ _ => rfl, fun _ => rfl⟩
+
+end ExactExample
+
+open ExactExample Frappy.Props.C01 Frappy.Datatypes in
+/-- non-vacuity of `change_exactly_validated`: `change m:_par {"a":[3,7],"c":"on"}` on a struct whose cached value has
+`b = 2`: the driver is called once, with the payload merged into the current value (`b` taken over), and that value is
+`acceptWire` of the datatype model -/
+example : ∃ w, (handleChange [] env node (.full "m" "_par") exWire).calls = [DriverCall.write "m" "par" w] ∧
+    acceptWire exTree exWire (some exPrev) = .ok w ∧ PVal.same w exResult = true := by
+  have hb : (match (handleChange [] env node (.full "m" "_par") exWire).calls with
+      | [.write "m" "par" w] => PVal.same w exResult
+      | _ => false) = true := by decide +kernel
+  split at hb
+  · rename_i w hcalls
+    obtain ⟨mod, p, ⟨m', a, ht, hex⟩, _, _, hall⟩ :=
+      change_exactly_validated [] env node wf (.full "m" "_par") exWire "m" "par" w hcalls
+    have hp : p = par := by
+      obtain ⟨hmem, _, _, hacc, _⟩ := hex
+      simp only [node, List.mem_singleton] at hmem; subst hmem
+      simp only [m, List.mem_singleton] at hacc; injection hacc
+    subst hp
+    exact ⟨w, hcalls, hall exTree cls isC01 exTree_wf exTree_gridExact (shaped_of_inSet _ _ exPrev_inSet), hb⟩
+  · cases hb
 
 /-! ### commands -/
 
